@@ -18,6 +18,7 @@ RULE = ('cases = every expression tree of depth <= 2 (thorough: 3 with a reduced
         'each evaluated on a 14-point separation lattice in (0, 30] (+ r = 0 where the energy itself evaluates there); oracle: '
         'hasattr(deriv/deriv2) => equals the reference jets; "fallback for that component only" decided behaviourally with '
         'counting leaves; non-trivial = tree with >= 1 combinator or a leaf with non-zero curvature')
+RULE += "; every built-in form over the C06 parameter lattice at leaf level; shared sub-expressions (a composed potential used as an operand after evaluation); powers whose base is exactly zero on the probe; (f^2)^0.5-style powers of powers; multi-range potentials with a default_value plateau; the public helpers gradient() / deriv() / num_deriv() with the caller's step h"
 ASSUMPTIONS = [
     'reference jets (forward-mode AD of the documented formulas) are exact derivatives',
     'tolerances: analytic 1e-9 x abs-propagated scale; one numerical level 50*eps*scale/h; numerical derivative of a numerical derivative 200*eps*scale/h^2 (h = 1e-6, documented fallback)',
@@ -25,7 +26,7 @@ ASSUMPTIONS = [
     'lattices, not all reals; depth <= 3',
 ]
 BOUNDS = {'quick': 'API: all depth-1 trees (3 x 22^2) + depth-2 trees over 6 leaves; potable: ~300 definitions; 14 separations',
-          'thorough': 'API: depth-2 trees over 9 leaves, depth-3 over 4 leaves; potable nesting depth 3'}
+          'thorough': 'API: depth-2 trees over 9 leaves, depth-3 trees (balanced and both chains) over 5-6 leaves; potable nesting depth 3'}
 
 RS = [0.05, 0.2, 0.45, 0.7, 0.95, 1.3, 1.75, 2.2, 2.9, 3.7, 5.3, 8.1, 13.0, 30.0]
 
